@@ -332,6 +332,9 @@ def run(ctx):
                        why='wells are written in an object that is not a fresh copy: the rest of the caller\'s plate changes',
                        key=f"mutation of non-fresh object: {e.target_text}")
     floor(ctx, 'mutation events in the plate operations', nev, 6)
+    # a slice of a (stepped) slice addresses the documented wells
+    from .c13 import subslice_composition
+    subslice_composition(ctx, 'C07.R1')
     # R2 forwarding
     forwarding(ctx, 'C07.R2')
     for name in ('get_volumes', 'get_substances', 'get_moles'):
